@@ -743,7 +743,8 @@ func (s *Store[H]) ensureInit(headers []H) {
 	}
 
 	if headPtr := s.contiguousHead.Load(); headPtr == nil {
-		head := headers[len(headers)-1]
+		// start at the first header, advanceHead moves up over what is actually contiguous
+		head := headers[0]
 		if s.contiguousHead.CompareAndSwap(headPtr, &head) {
 			s.heightSub.Init(head.Height())
 			log.Debugw("initialized head", "height", head.Height())
